@@ -422,8 +422,9 @@ func genC11ufs(c *Ctx) {
 				}
 			}
 			rt(34, func(fc *g.Fcall) error { return g.PackTcreate(fc, 21, "dir", g.DMDIR|0o755, g.OREAD, "", dotu) })
-			rt(35, func(fc *g.Fcall) error { return g.PackTwalk(fc, 0, 22, []string{"dir", "f0"}) })
-			os.Remove(filepath.Join(e.outer, "export", "dir", "f0"))
+			os.WriteFile(filepath.Join(e.outer, "export", "dir", "zz-gone"), []byte("x"), 0o644)
+			rt(35, func(fc *g.Fcall) error { return g.PackTwalk(fc, 0, 22, []string{"dir", "zz-gone"}) })
+			os.Remove(filepath.Join(e.outer, "export", "dir", "zz-gone"))
 			rt(36, func(fc *g.Fcall) error { return g.PackTopen(fc, 22, g.OREAD) })
 			c.count("ufs-history:failing-requests")
 		}
